@@ -194,14 +194,7 @@ fn c09_f1_header_value() {
 }
 
 // ------------------------------------------------------------------ F3: a length that would need a fifth byte
-#[kani::proof]
-#[kani::unwind(8)]
-fn c09_f3_overlong_rl() {
-    let x: [u8; 8] = kani::any();
-    // fixed header, four continuation bytes, then a small valid frame [h2, 1, d]
-    let b: [u8; 8] = [x[0], x[1] | 0x80, x[2] | 0x80, x[3] | 0x80, x[4] | 0x80, x[5], 1, x[7]];
-    let cutpos: usize = kani::any(); // the error frame may itself arrive in two pieces
-    kani::assume(cutpos >= 1 && cutpos <= 5);
+fn f3_case(b: &[u8; 8], cutpos: usize) {
     let mut pb = PacketBuilder::new();
     if cutpos < 5 {
         let mut c0 = Cursor::new(&b[..cutpos]);
@@ -219,18 +212,31 @@ fn c09_f3_overlong_rl() {
     let r2 = pb.feed(&mut cur);
     match r2 {
         PacketBuildResult::Complete(raw) => {
-            assert!(raw.fixed_header == x[5], "[C09] framing resumes at the next byte");
+            assert!(raw.fixed_header == b[5], "[C09] framing resumes at the next byte");
             let d = raw.data_as_slice();
-            assert!(d.len() == 1 && d[0] == x[7], "[C09] frame after the error is intact");
+            assert!(d.len() == 1 && d[0] == b[7], "[C09] frame after the error is intact");
             core::mem::forget(raw);
         }
         _ => {
             assert!(false, "[C09] frame following a framing error is parsed normally");
         }
     }
-    kani::cover!(cutpos == 3, "error frame split across two buffers");
     core::mem::forget(pb);
     core::mem::forget(r);
+}
+
+#[kani::proof]
+#[kani::unwind(8)]
+fn c09_f3_overlong_rl() {
+    let x: [u8; 8] = kani::any();
+    // fixed header, four continuation bytes, then a small valid frame [h2, 1, d]
+    let b: [u8; 8] = [x[0], x[1] | 0x80, x[2] | 0x80, x[3] | 0x80, x[4] | 0x80, x[5], 1, x[7]];
+    // the error frame may itself arrive in two pieces: every cut position, concretely
+    f3_case(&b, 1);
+    f3_case(&b, 2);
+    f3_case(&b, 3);
+    f3_case(&b, 4);
+    f3_case(&b, 5);
 }
 
 // ------------------------------------------------------------------ F2: all cuttings of bounded streams
